@@ -147,12 +147,14 @@ async fn dispatch_message(
         &subscription.name,
         &push_config.endpoint
     );
-    let result = client
+    let request = client
         .request(reqwest::Method::POST, &push_config.endpoint)
         .header("Content-Type", "application/json;charset=utf8")
-        .body(encode_message_payload(&subscription, message))
-        .send()
-        .await;
+        .body(encode_message_payload(&subscription, message));
+    #[cfg(not(deltio_verif))]
+    let result = request.send().await;
+    #[cfg(deltio_verif)]
+    let result = crate::verif::push_send(request).await;
     let success = match result {
         Ok(response) => {
             let status: u16 = response.status().into();
